@@ -1677,7 +1677,7 @@ func Run(r *core.Run) {
 	}
 	var cmu sync.Mutex
 	designBroken := false
-	core.Parallel(len(cfgs), 4, func(i int) {
+	core.Parallel(len(cfgs), r.Pick(6, 4), func(i int) {
 		res := tlcrun.MustHold(r, tlcrun.Options{Module: "LinkGen", Config: cfgs[i].name, Workers: 2, TimeoutSec: r.Pick(900, 3000),
 			Files: map[string]string{cfgs[i].name: cfgs[i].text},
 			OnCase: func(raw []byte) {
